@@ -1,4 +1,89 @@
-// Mode `parse` (stub; filled in with the grammar correspondence).
-pub fn line(_line: &str) -> String {
-    "not-implemented".into()
+// Mode `parse`: the real parser (`oq3_parser::TopEntryPoint::SourceFile.parse`) on one case
+// line, printed in the canonical I3 form (see /verif/DESIGN.md §2.1 and
+// /verif/lean/Oq3/Driver/Parse.lean, which prints the grammar model's view in the same form).
+//
+// Case line: space-separated `SyntaxKind` names (their `Debug` form), each optionally suffixed
+// with `+` when the token is joint with the next one; the empty line is the empty input.
+//
+// Output: `pos=<sum of n_input_tokens>;steps=<S1> <S2> …;bal=1` with steps `E:<KIND>`, `X`,
+// `T:<KIND>:<n>`, `R:<message with spaces replaced by _>`; `bal=1` because the debug balance
+// assertions of `TopEntryPoint::parse` are compiled in and did not fire.  A panic is
+// `PANIC <file>:<line> <message>`.
+use crate::codec::last_panic;
+use oq3_parser::{Input, Step, SyntaxKind, TopEntryPoint};
+use std::cell::RefCell;
+use std::collections::HashMap;
+use std::panic::{catch_unwind, AssertUnwindSafe};
+
+thread_local! {
+    static KINDS: RefCell<Option<HashMap<String, SyntaxKind>>> = const { RefCell::new(None) };
+}
+
+fn kind_by_name(name: &str) -> Option<SyntaxKind> {
+    KINDS.with(|k| {
+        let mut k = k.borrow_mut();
+        let map = k.get_or_insert_with(|| {
+            let mut m = HashMap::new();
+            for d in 0..=(SyntaxKind::__LAST as u16) {
+                let kind = SyntaxKind::from(d);
+                m.insert(format!("{:?}", kind), kind);
+            }
+            m
+        });
+        map.get(name).copied()
+    })
+}
+
+/// `A+ B` = push(A); was_joint(); push(B): `was_joint` marks the last pushed token as joint
+/// with the next one.
+fn build_input(line: &str) -> Result<Input, String> {
+    let mut input = Input::default();
+    for w in line.split(' ') {
+        if w.is_empty() {
+            continue;
+        }
+        let (name, joint) = match w.strip_suffix('+') {
+            Some(n) => (n, true),
+            None => (w, false),
+        };
+        let kind = kind_by_name(name).ok_or_else(|| format!("unknown kind {name}"))?;
+        input.push(kind);
+        if joint {
+            input.was_joint();
+        }
+    }
+    Ok(input)
+}
+
+fn run(input: &Input) -> String {
+    let out = TopEntryPoint::SourceFile.parse(input);
+    let mut pos: usize = 0;
+    let mut steps: Vec<String> = Vec::new();
+    for step in out.iter() {
+        match step {
+            Step::Enter { kind } => steps.push(format!("E:{:?}", kind)),
+            Step::Exit => steps.push("X".to_string()),
+            Step::Token {
+                kind,
+                n_input_tokens,
+            } => {
+                pos += n_input_tokens as usize;
+                steps.push(format!("T:{:?}:{}", kind, n_input_tokens));
+            }
+            Step::Error { msg } => steps.push(format!("R:{}", msg.replace(' ', "_"))),
+            Step::FloatSplit { ends_in_dot } => steps.push(format!("F:{}", ends_in_dot as u8)),
+        }
+    }
+    format!("pos={};steps={};bal=1", pos, steps.join(" "))
+}
+
+pub fn line(line: &str) -> String {
+    let input = match build_input(line) {
+        Ok(i) => i,
+        Err(e) => return format!("bad-case {e}"),
+    };
+    match catch_unwind(AssertUnwindSafe(|| run(&input))) {
+        Ok(s) => s,
+        Err(_) => format!("PANIC {}", last_panic()),
+    }
 }
